@@ -30,7 +30,8 @@
   `listtypes`), s_text_note, s/e_text_note_body, e_text_note_citation, s/e_text_p, s_text_s, s/e_text_span,
   s_text_tab, s/e_text_x_source.  The style collecting handlers (s_style_*, s_office_styles, …) only feed the opaque
   style sheet: no token, no flag change (s_style_master_page: processelem := False).
-  s/e_custom_shape (draw:custom-shape: the <div> of a frame without writing the pending data first).
+  s/e_custom_shape (draw:custom-shape: the <div> of a frame), s_draw_shape (the other drawing shapes: the pending data
+  is written, nothing else).
   NOT modelled (`Err.unmodelled` when reached): s_draw_fill_image, s_draw_object, s_draw_object_ole.
   Python exceptions are `Err` values (KeyError for `attrs[k]`, ValueError for `int()`, IndexError for `pop` on an empty
   `htmlstack` / `stackparent()`, AttributeError for `None.replace` and a missing `_orgwfunc`).
@@ -458,11 +459,13 @@ def runH (cfg : Cfg) (ctx : Ctx) (h : HName) (q : Str) (attrs : Attrs) (pe pc : 
     let st := purgedata (writedata st)
     keep (if cfg.css then opentag nDiv [(aClass, frameClass attrs), (aStyle, frameStyle attrs)] false st else opentag nDiv [] false st)
   | .e_draw_frame => keepM (closetag nDiv true st)
-  -- draw:custom-shape: a <div> like the frame's, but the pending character data is NOT written first (no writedata /
-  -- purgedata: a paragraph inside the shape purges it)
+  -- draw:custom-shape: a <div> like the frame's (e7e9e0f: the pending character data is written first, as for the frame)
   | .s_custom_shape =>
+    let st := purgedata (writedata st)
     keep (if cfg.css then opentag nDiv [(aClass, frameClass attrs), (aStyle, shapeStyle attrs)] false st else opentag nDiv [] false st)
   | .e_custom_shape => keepM (closetag nDiv true st)
+  -- s_draw_shape (draw:rect, draw:ellipse, … - shapes that may hold paragraphs): writedata(); purgedata()
+  | .s_draw_shape => keep (purgedata (writedata st))
   | .s_draw_image =>
     match ctx.stack with
     | [] => .error .indexError
